@@ -813,6 +813,15 @@ def _quantify_idx(ex, e, universal):
             ex.spec_mode = sm
             ex.env = saved
 
+    def length_of(p):
+        # the prefix S[:k] with 0 <= k <= len(S) known has exactly k elements
+        if z3.is_app(p) and p.decl().kind() == z3.Z3_OP_SEQ_EXTRACT and z3.is_int_value(p.arg(1)) \
+                and p.arg(1).as_long() == 0:
+            k = vl.simp(p.arg(2))
+            if ex.is_nonneg(k) and vl.simp(z3.Length(p.arg(0))).get_id() in ex.eng.le_len.get(k.get_id(), ()):
+                return k
+        return z3.Length(p)
+
     parts = _concat_parts(seq)
     if len(parts) == 1:
         i = fresh('i', vl.Int)
@@ -821,8 +830,8 @@ def _quantify_idx(ex, e, universal):
             elem = seq.arg(0)[seq.arg(1) + i]
         body = body_at(i, elem)
         if universal:
-            return mk_bool(z3.ForAll([i], z3.Implies(z3.And(i >= 0, i < z3.Length(seq)), body)))
-        return mk_bool(z3.Exists([i], z3.And(i >= 0, i < z3.Length(seq), body)))
+            return mk_bool(z3.ForAll([i], z3.Implies(z3.And(i >= 0, i < length_of(seq)), body)))
+        return mk_bool(z3.Exists([i], z3.And(i >= 0, i < length_of(seq), body)))
     out = []
     off = z3.IntVal(0)
     for p in parts:
@@ -840,10 +849,10 @@ def _quantify_idx(ex, e, universal):
                 elem = p.arg(0)[p.arg(1) + i]
             body = body_at(off + i, elem)
             if universal:
-                out.append(z3.ForAll([i], z3.Implies(z3.And(i >= 0, i < z3.Length(p)), body)))
+                out.append(z3.ForAll([i], z3.Implies(z3.And(i >= 0, i < length_of(p)), body)))
             else:
-                out.append(z3.Exists([i], z3.And(i >= 0, i < z3.Length(p), body)))
-            off = off + z3.Length(p)
+                out.append(z3.Exists([i], z3.And(i >= 0, i < length_of(p), body)))
+            off = off + length_of(p)
     if not out:
         return mk_bool(z3.BoolVal(universal))
     return mk_bool(z3.And(*out) if universal else z3.Or(*out))
@@ -925,6 +934,38 @@ def bi_dict_values_str(ex, e):
     d = ex.ev(e.args[0])
     k = fresh('k', Val)
     return mk_bool(z3.ForAll([k], z3.Implies(z3.Select(d.dom, k), is_str(z3.Select(d.val, k)))))
+
+
+def bi_forall_keys(ex, e):
+    """forall_keys(d, lambda k: P): P holds of every key of the dict"""
+    d = _dict_arg(ex, e)
+    lam = e.args[1]
+    k = fresh('k', Val)
+    saved = dict(ex.env)
+    ex.env[lam.args.args[0].arg] = V(k)
+    sm = ex.spec_mode
+    ex.spec_mode = True
+    try:
+        body = as_bool(ex.ev(lam.body))
+    finally:
+        ex.spec_mode = sm
+        ex.env = saved
+    return mk_bool(z3.ForAll([k], z3.Implies(z3.Select(d.dom, k), body)))
+
+
+def bi_dict_eq(ex, e):
+    """dict_eq(a, b): same keys (same order) with the same values"""
+    a = _dict_arg(ex, e)
+    b = ex.ev(e.args[1])
+    if isinstance(b, V):
+        b = SDict(vl.empty_set(), z3.K(Val, VNone), vl.empty_seq())
+    k = fresh('k', Val)
+    body = z3.And(z3.Select(a.dom, k) == z3.Select(b.dom, k),
+                  z3.Implies(z3.Select(a.dom, k), z3.Select(a.val, k) == z3.Select(b.val, k)))
+    conj = [z3.ForAll([k], body)]
+    if a.keys is not None and b.keys is not None:
+        conj.append(a.keys == b.keys)
+    return mk_bool(z3.And(*conj))
 
 
 def bi_dict_keys(ex, e):
